@@ -217,6 +217,32 @@ def real_verdict(obj, hint, conf, r):
     except Exception as e:
         return 'raise', e
 
+REACH_POOL = ["''", '0', 'None', "b''", '()', '0.0', 'False', '[]', "'x'", '1', 'True', '2.5', "b'x'", '(1,)', 'L0()', 'L1()', 'L2()']
+def reach_fallback(hint_src, conf_src):
+    """guided search when the concretised model does not replay: for a ROOT hint with one item hint T, lists [filler, violator] with the
+    violator (must-reject for T under the independent oracle; falsy objects first) at the drawn index 1 and a conforming filler at index 0"""
+    import typing
+    hint = shapes.ev(hint_src); conf = shapes.ev(conf_src); orc = Oracle(conf)
+    args = typing.get_args(hint)
+    if len(args) != 1 and not (len(args) == 2 and args[1] is Ellipsis): return None
+    T = args[0]
+    for fsrc in REACH_POOL:
+        try: f = eval(fsrc, NS)
+        except Exception: continue
+        if not orc.conforms(f, T): continue
+        for vsrc in REACH_POOL:
+            try: v = eval(vsrc, NS)
+            except Exception: continue
+            if not orc.must_reject(v, T): continue
+            for mk in ('[{f}, {v}]', '({f}, {v})'):
+                osrc = mk.format(f=fsrc, v=vsrc)
+                try: obj = eval(osrc, NS)
+                except Exception: continue
+                if not isinstance(obj, typing.get_origin(hint) or object): continue
+                verdict, e = real_verdict(obj, hint, conf, 1)
+                if verdict == 'accept': return osrc, 1, f'object {osrc} whose only violating item sits at the drawn index 1 accepted for draw 1'
+    return None
+
 def replay_gen(kind, hint_src, conf_src, obj_src, r, extra=None):
     """kind: C01 | C02.mustreject | C02.reach | C02.consistent | defined | C09 | C10"""
     hint = shapes.ev(hint_src); conf = shapes.ev(conf_src); orc = Oracle(conf)
